@@ -314,7 +314,7 @@ def exhaustive_cases(ctx: Check) -> tuple[list[Case], list[Case]]:
     (monitored), and every single step from every register valuation with every argument that fits the
     signals (model/implementation agreement only)."""
     hist, single = [], []
-    for n, ma, mf in [(1, 1, 1), (2, 1, 1), (3, 2, 2), (3, 1, 2)]:
+    for n, ma, mf in [(1, 1, 1), (2, 1, 1), (3, 2, 2)]:
         for val in (1, 0):
             alph = [
                 (a, f, c)
@@ -325,7 +325,7 @@ def exhaustive_cases(ctx: Check) -> tuple[list[Case], list[Case]]:
             for L in (1, 2, 3):
                 for seq in itertools.product(alph, repeat=L):
                     hist.append(_mk(n, ma, mf, val, list(seq), "exhaustive"))
-    for n, ma, mf in [(1, 1, 1), (2, 2, 2), (3, 2, 2), (3, 4, 1), (4, 3, 3), (5, 2, 3)]:
+    for n, ma, mf in [(1, 1, 1), (2, 2, 2), (3, 2, 2), (3, 4, 1), (5, 2, 1)]:
         idw, cw = (n - 1).bit_length(), n.bit_length()
         wa, wf = ma.bit_length(), mf.bit_length()
         for val in (1, 0):
@@ -376,7 +376,7 @@ def run(ctx: Check):
     )
     ctx.proof_stage()
     ctx.replay_findings(replay_witness)
-    procs = ctx.pick(1, None)
+    procs = ctx.pick(1, 4)  # tiny cases: a large fork pool costs more than it saves
     valid, malformed = gen_cases(ctx)
     valid = _corpus() + valid
     lockstep(ctx, "circular-allocator", "C27", valid, impl, monitor, more_cases, nontrivial, procs=procs)
@@ -384,10 +384,10 @@ def run(ctx: Check):
     ctx.count("configurations", len({(c.desc["n"], c.desc["ma"], c.desc["mf"], c.desc["val"]) for c in valid}))
     if ctx.thorough:
         hist, single = exhaustive_cases(ctx)
-        lockstep(ctx, "circular-allocator", "C27", hist, impl, monitor, more_cases, nontrivial, procs=procs)
-        lockstep(ctx, "circular-allocator-single-step", "C27", single, impl, None, None, lambda c, o: True, procs=procs)
-        ctx.note("thorough: all histories of length<=3 with in-range counts for 4 smallest configurations x validation; "
-                 "all single steps from all register valuations for 6 configurations x validation")
+        lockstep(ctx, "circular-allocator", "C27", hist, impl, monitor, more_cases, nontrivial, procs=1)
+        lockstep(ctx, "circular-allocator-single-step", "C27", single, impl, None, None, lambda c, o: True, procs=1)
+        ctx.note("thorough: all histories of length<=3 with in-range counts for 3 smallest configurations x validation; "
+                 "all single steps from all register valuations for 5 configurations x validation")
     ctx.note("count > max_alloc (fits the signal, outside range(max_alloc+1)) with non-power-of-two entries: validation "
              "accepts it when allocated+count<=entries but mod_add has no case for it, end_idx is wrong afterwards "
              "(entries=3,max_alloc=2: alloc(3) at end_idx=2 gives end_idx=1). Outside the property's hypotheses; "
